@@ -370,9 +370,11 @@ def populate(c: Ctx, n_objects=None, types=None, origin_pos=None, n_origins=None
             continue
         kw, lab, kind, multi = r.choice(cands)
         v = gen.gen_scalar(r, t, kw, kind, c.refs())
-        c.sp['ops'].append({'op': 'assign', 'lf': c.lf, 'target': i, 'target_op': t, 'kw': kw, 'part': 'value', 'value': v})
+        via = r.choice([None, None, 'set_attributes'])
+        c.sp['ops'].append({'op': 'assign', 'lf': c.lf, 'target': i, 'target_op': t, 'kw': kw, 'part': 'value', 'value': v, 'via': via})
         if kind in schema.UNITS_KINDS and maybe(r, 0.5):
             c.sp['ops'].append({'op': 'assign', 'lf': c.lf, 'target': i, 'target_op': t, 'kw': kw, 'part': 'units',
-                                'value': r.choice(gen.UNIT_STRINGS)})
+                                'value': r.choice(gen.UNIT_STRINGS), 'via': r.choice([None, 'set_attributes']),
+                                'via_form': r.choice(['dict', 'AttrSetup'])})
         n_later += 1
     return c
